@@ -147,6 +147,56 @@ def registryKey (base : List (String × Val)) : Option (List String × String) :
   | some (.list ns), some (.str n) => some (ns, n)
   | _, _ => none
 
+/-! ## `Resolver.load_external` over a whole file written by the yaml target
+
+For every document of the file: `model_validate`, then the loader *tries* to find the line `name: <name>` with a regular
+expression (only to give the type a position for diagnostics / go-to-definition), then `register`. Whether the line is found
+depends on how `yaml.dump` spelled the name: an IDL identifier that the YAML 1.1 resolver of PyYAML reads as a bool or as null
+(`on`, `No`, `TRUE`, `null`, …) is written single-quoted (`name: 'on'`) and is not found. The registration does not depend
+on it.
+(Dom clause `distinctNamesPerTypeFile` of the pinned tree: without `out_file` the documents are written to `<name>.yaml`, so
+the list of documents a dependant can load is the list of exports only if the bare names are distinct — finding
+`yaml:document-set:same-name-per-type-file`.) -/
+
+/-- the identifiers PyYAML's implicit resolver reads as `bool` or `null` (the other resolvers — int, float, timestamp, merge,
+    value — need a digit, a sign, `.`, `<` or `=` and never match `Letter (Letter|Digit|_)*`) -/
+def yamlWords : List String :=
+  ["yes", "Yes", "YES", "no", "No", "NO", "true", "True", "TRUE", "false", "False", "FALSE",
+   "on", "On", "ON", "off", "Off", "OFF", "null", "Null", "NULL"]
+
+/-- `yaml.dump` writes the identifier as a plain scalar -/
+def plainScalar (s : String) : Bool := !yamlWords.contains s
+
+/-- one entry of `Resolver.registry` -/
+structure Entry where
+  key : List String × String
+  ext : ExtType
+  located : Bool      -- `position` has line and columns (the `name:` line was found); otherwise only the file
+deriving DecidableEq, Repr
+
+inductive FileResult
+  | ok (reg : List Entry)
+  | invalid                                  -- pydantic.ValidationError -> InputParsingException
+  | duplicate (key : List String × String)   -- `register`: TypeResolvingException "already exists"
+deriving DecidableEq, Repr
+
+def hasKey (k : List String × String) : List Entry → Bool
+  | [] => false
+  | e :: rest => e.key = k || hasKey k rest
+
+/-- `load_external` on the documents of one file, on top of the registry `reg` -/
+def loadFile (spec : ExtSpec) : List Doc → List Entry → FileResult
+  | [], reg => .ok reg
+  | d :: ds, reg =>
+    match load spec d with
+    | none => .invalid
+    | some e =>
+      match registryKey e.base with
+      | none => .invalid                     -- `name` / `namespace` are required fields of the model
+      | some k =>
+        if hasKey k reg then .duplicate k
+        else loadFile spec ds (reg ++ [{ key := k, ext := e, located := plainScalar k.2 }])
+
 /-! ## tables regenerated from the live source on every run, and the checks over them -/
 
 /-- attributes of a type that dependants read through `….type_def` (templates and generator Python), with the context
